@@ -283,3 +283,14 @@ Theorem C17_literal_named_nodes_refuted :
   p_imm_f64 [Elem T_pMin [] [Text [95; 120]]] = Ok (Imm (FvText [95; 120]), []).
 Proof. exact literal_named_nodes_refuted. Qed.
 Print Assumptions C17_literal_named_nodes_refuted.
+
+(* TIE TO THE SOURCE NAMES.  gen/ElemNames.v is regenerated from genapi/src/parser/elem_name.rs on every run
+   (tools/translate_names.py): the 103 element / attribute tags the model shares with that file are the source's
+   constants (paired by constant name), the pairing covers the whole file, and the source's names are pairwise
+   different. *)
+From Cam Require Import ElemNames P_Names.
+
+Theorem C17_tags_from_source :
+  model_tags = source_tags /\ length source_tags = length src_all_names /\ all_distinct src_all_names = true.
+Proof. exact (conj tags_from_source (conj tags_cover_source source_names_distinct)). Qed.
+Print Assumptions C17_tags_from_source.
